@@ -25,7 +25,8 @@
 (*    what the property forbids.  The same for a GC pass and a request entering after it.              *)
 (*  - "the same address" for a repeated ADD and "still owns" after a restart are demanded only while   *)
 (*    the acknowledged address is still assigned to an attached interface in the cloud;                 *)
-(*  - a pod whose DEL was inside its handler when the daemon was killed is not owed its address;        *)
+(*  - a pod whose DEL was inside its handler when the daemon was killed (or when another pod asked) is  *)
+(*    not owed its address; neither is a pod that is gone from the node and the API;                    *)
 (*  - GC may delete on the strength of its own API answers (not in the local list + existence check    *)
 (*    said no) or when the pod really is gone; a sticky pod need not be kept for an extra period;      *)
 (*  - "within two passes" counts only passes during which nothing changed and no API call failed.      *)
@@ -143,7 +144,8 @@ GetPod(r, found, sticky) ==
 
 (* what the daemon still owes: not the address of a pod whose effective DEL is inside its handler (the address is *)
 (* on its way back to the pool; this is also what a daemon killed now still owes after its restart)          *)
-Owed == [p \in Pods |-> IF \E r \in Rpcs : InHandler(r) /\ rpc[r].k = "del" /\ rpc[r].p = p /\ rpc[r].eff
+Owed == [p \in Pods |-> IF \/ \E r \in Rpcs : InHandler(r) /\ rpc[r].k = "del" /\ rpc[r].p = p /\ rpc[r].eff
+                           \/ (wr.by = "gc" /\ wr.p = p /\ wr.rec = NoRec)                 \* being collected
                         THEN NoAck ELSE acked[p]]
 
 StillInside(r) == /\ G("C04", rpc[r].st # "outP")      \* no second request of the pod was let in meanwhile
@@ -263,7 +265,7 @@ GcRet(err) ==
 
 OwnersAgree(own, d, ak) ==
     /\ \A x \in own : x.p \in Pods /\ d[x.p] # NoRec /\ d[x.p].e = x.e /\ d[x.p].a = x.a             \* no owner without a record
-    /\ \A p \in Pods : AckLiveIn(ak, p) => [e |-> ak[p].e, a |-> ak[p].a, p |-> p] \in own           \* an acknowledged pod still owns its address
+    /\ \A p \in Pods : (AckLiveIn(ak, p) /\ ~Vanished(p)) => [e |-> ak[p].e, a |-> ak[p].a, p |-> p] \in own   \* an acknowledged pod (still there) owns its address
 
 (* Quiescent: no request, no pass, no write in progress.  own = the pool's own owner table. *)
 Obs(diskobs, memobs, own, cl) ==
